@@ -38,6 +38,10 @@ using celma::prog_args::Handler;
 using celma::prog_args::Groups;
 using celma::prog_args::detail::TypedArgBase;
 
+// C09: text appended to every pattern string ("|" + a word starting with a control character that no generated value
+// contains): the language of the pattern stays the same, the pattern string is one the process has not seen before
+static thread_local std::string gPatSalt;
+
 // ---------------------------------------------------------------- JSON helpers
 static std::string dump(const vj::Value& v) {
    switch (v.kind) {
@@ -355,7 +359,7 @@ static void applyArgSettings(const vj::Value& cfg, const vj::Value& a, TypedArgB
          std::string lst;
          for (size_t i = 0; i < checks[k]["vals"].size(); ++i) { if (i) lst += ','; lst += checks[k]["vals"][i].bytes(); }
          t->addCheck(values(lst));
-      } else if (ck == "pattern") t->addCheck(pattern(checks[k]["pat"].bytes()));
+      } else if (ck == "pattern") t->addCheck(pattern(checks[k]["pat"].bytes() + gPatSalt));
    }
    const vj::Value& fmts = a["formats"];
    for (size_t k = 0; k < fmts.size(); ++k) {
@@ -422,15 +426,25 @@ static std::unique_ptr<Built> buildImpl(const vj::Value& cfg, bool grouped, int 
          // sub-group: a nested handler entered by this key; its destinations are projected as a nested list
          b->slots.push_back(makeSlot("flag", vj::Value()));
          Handler& hs = grouped ? *b->members[static_cast<size_t>(a["grp"].num())] : *b->single;
+         std::unique_ptr<Built> sb;
          try {
-            auto sb = buildImpl(a["sub"], false, 0, a["subctor"].num() == 1 ? &hs : nullptr);
+            sb = buildImpl(a["sub"], false, 0, a["subctor"].num() == 1 ? &hs : nullptr);
             if (sb->setupFailed) throw std::runtime_error(sb->setupWhat);
             TypedArgBase* t = hs.addArgument(keySpec(a), *sb->single, "D" + std::to_string(i + 1));
             b->subOf[i] = static_cast<int>(b->subs.size());
             b->subs.push_back(std::move(sb));
             b->defineRes.push_back("ok");
             if (a["mand"].boolean()) t->setIsMandatory();
-         } catch (const std::exception& e) { b->defineRes.push_back("refused"); b->setupFailed = true; b->setupWhat = e.what(); break; }
+         } catch (const std::exception& e) {
+            b->defineRes.push_back("refused");
+            if (cfg["lenient"].boolean() && sb && !sb->setupFailed) {
+               // C05: the handler keeps the other arguments; the refused sub-group's (untouched) destinations are still projected
+               b->subOf[i] = static_cast<int>(b->subs.size());
+               b->subs.push_back(std::move(sb));
+               continue;
+            }
+            b->setupFailed = true; b->setupWhat = e.what(); break;
+         }
          continue;
       }
       if (a["kind"].str() == "argfile") {
@@ -616,8 +630,23 @@ static void doDefine(const vj::Value& cfg, const vj::Value& act) {
       } else b->single = std::make_unique<Handler>(b->out, b->err, handlerFlags(cfg));
       for (size_t i = 0; i < args.size(); ++i) {
          const vj::Value& a = args[i];
-         b->slots.push_back(makeSlot(a["kind"].str(), a["init"]));
          Handler& h = grouped ? *b->members[static_cast<size_t>(a["grp"].num())] : *b->single;
+         if (a["kind"].str() == "sub") {
+            // sub-group argument: a key of the handler like any other
+            b->slots.push_back(makeSlot("flag", vj::Value()));
+            try {
+               auto sb = buildImpl(a["sub"], false, 0, nullptr);
+               if (sb->setupFailed) throw std::runtime_error(sb->setupWhat);
+               h.addArgument(keySpec(a), *sb->single, "D" + std::to_string(i + 1));
+               b->subs.push_back(std::move(sb));
+               res.push_back("ok");
+            } catch (const std::exception&) {
+               res.push_back("refused");
+               if (grouped) { while (res.size() < args.size()) res.push_back("skipped"); break; }
+            }
+            continue;
+         }
+         b->slots.push_back(makeSlot(a["kind"].str(), a["init"]));
          TypedArgBase* d = b->slots.back()->dest("v" + std::to_string(i + 1));
          try {
             std::string spec = keySpec(a);
@@ -805,8 +834,14 @@ int main(int argc, char** argv) {
                ready.fetch_add(1, std::memory_order_relaxed);
                while (!go.load(std::memory_order_relaxed)) {}
                for (volatile long k = 0; k < skew[t]; ++k) {}
+               long evalNo = 0;
                for (long r = 0; r < rounds; ++r)
-                  for (auto& a : b.acts) doEval(b.cfg, a, cj);
+                  for (auto& a : b.acts) {
+                     // every second set-up uses pattern strings that are new to the process, the others known ones
+                     gPatSalt = (++evalNo % 2 == 0) ? std::string() : "|\x02" + std::to_string(base + t) + "_" + std::to_string(evalNo);
+                     doEval(b.cfg, a, cj);
+                  }
+               gPatSalt.clear();
                vj::Line::sink() = nullptr;
             });
          }
